@@ -2514,3 +2514,197 @@ func delayedPointersSurviveRounds(c *Ctx, rule string) {
 	c.Check(good, rule, "filter-process:delayed-pointers-kept-across-rounds", pos, "one map of delayed pointers, created before the request loop, entries removed singly",
 		"the pointers remembered for delayed blobs do not survive from one list_available_blobs round to the next ("+why+"): a blob whose download failed is announced, Git asks for it, and the filter smudges an empty pointer — an empty file is written with status success")
 }
+
+// treeListingsCoverWholeTree (C05, C13, C04): `git ls-tree` lists the current directory's part of the tree unless
+// told otherwise, and git-lfs does not change to the repository root. LsTree must pass --full-tree (not merely
+// --full-name, which only changes how paths are printed) and -r, or a command started in a sub-directory sees
+// only the pointers below it: prune deletes the rest of the checkout's objects, fsck --pointers finds no
+// .gitattributes.
+func treeListingsCoverWholeTree(c *Ctx, rule string) {
+	p := c.P
+	fn := p.Fn("git", "LsTree")
+	if fn == nil {
+		c.Missing(rule, "git.LsTree", "not found")
+		return
+	}
+	n := 0
+	for _, ci := range CallsIn(fn, gitRunners...) {
+		a := CallArgs(ci.Common())
+		vecs, ok := ArgVectors(a[len(a)-1])
+		if !ok || len(vecs) == 0 {
+			c.Undecided(rule, "git.LsTree:argv", p.InstrPos(ci), "the argument vector could not be enumerated")
+			continue
+		}
+		n++
+		good := true
+		for _, vec := range vecs {
+			has := map[string]bool{}
+			for _, e := range vec {
+				if s, isC := ConstString(e.V); isC && !e.Spread {
+					has[s] = true
+				}
+			}
+			if !has["ls-tree"] || !has["--full-tree"] || !has["-r"] {
+				good = false
+			}
+		}
+		c.Check(good, rule, "git.LsTree:whole-tree", p.InstrPos(ci), "ls-tree runs with -r and --full-tree", "git.LsTree does not ask for the whole tree (-r and --full-tree): started from a sub-directory, the scan of a commit's tree covers only that directory")
+	}
+	c.AtLeast(rule, "git invocations in git.LsTree", n, 1)
+}
+
+// checkoutRetentionOnlyForce (C05): what a checkout needs — the current HEAD and the HEAD of every other
+// worktree — is retained unless --force was given. Among the switches of the prune configuration only
+// PruneForce may stand in front of those scans; --recent (PruneRecent) narrows the *recent* window only.
+func checkoutRetentionOnlyForce(c *Ctx, rule string) {
+	p := c.P
+	n := 0
+	for _, name := range []string{"pruneTaskGetRetainedWorktree", "pruneTaskGetRetainedCurrentAndRecentRefs"} {
+		fn := p.Fn("commands", name)
+		if fn == nil {
+			c.Missing(rule, "commands."+name, "not found")
+			continue
+		}
+		for _, b := range fn.Blocks {
+			for _, in := range b.Instrs {
+				g, ok := in.(*ssa.Go)
+				if !ok || CalleeName(&g.Call) != "commands.pruneTaskGetRetainedAtRef" {
+					continue
+				}
+				// is the ref the current checkout's or a worktree's HEAD?
+				current := false
+				for _, cn := range rootCallees(g.Call.Args[1], 0) {
+					if nameIn(cn, []string{"git.CurrentRef", "git.GetAllWorktrees"}) {
+						current = true
+					}
+				}
+				if !current {
+					continue
+				}
+				n++
+				good, why := true, ""
+				for _, dc := range decidingConds(fn, b) {
+					tn, f, _, ok := FieldOf(dc.Cond)
+					if !ok || tn != "lfs.FetchPruneConfig" {
+						continue
+					}
+					if f != "PruneForce" {
+						good, why = false, f
+					}
+				}
+				c.Check(good, rule, "checkout-retention-only-force:"+name+"#"+itoa(n), p.InstrPos(g), "the scan of a checked-out commit depends on no switch but PruneForce",
+					"the scan that retains what a checked-out commit needs is switched off by "+why+" (not only by --force): `prune --recent` deletes objects another worktree has checked out")
+			}
+		}
+	}
+	c.AtLeast(rule, "scans of checked-out commits", n, 2)
+}
+
+// rootCallees follows field loads, element loads, range variables and φ-nodes back from v and names the calls whose
+// results v is a part of.
+func rootCallees(v ssa.Value, d int) []string {
+	if d > 10 || v == nil {
+		return nil
+	}
+	v = Unwrap(v)
+	if cc, _, ok := CallResult(v); ok {
+		return []string{CalleeName(cc.Common())}
+	}
+	switch x := v.(type) {
+	case *ssa.UnOp:
+		if x.Op == token.MUL {
+			switch a := x.X.(type) {
+			case *ssa.FieldAddr:
+				return rootCallees(a.X, d+1)
+			case *ssa.IndexAddr:
+				return rootCallees(a.X, d+1)
+			case *ssa.Alloc:
+				var out []string
+				for _, df := range ReachingDefs(x) {
+					out = append(out, rootCallees(df, d+1)...)
+				}
+				return out
+			}
+			return rootCallees(x.X, d+1)
+		}
+	case *ssa.Field:
+		return rootCallees(x.X, d+1)
+	case *ssa.Index:
+		return rootCallees(x.X, d+1)
+	case *ssa.FieldAddr:
+		return rootCallees(x.X, d+1)
+	case *ssa.IndexAddr:
+		return rootCallees(x.X, d+1)
+	case *ssa.Extract:
+		return rootCallees(x.Tuple, d+1)
+	case *ssa.Next:
+		return rootCallees(x.Iter, d+1)
+	case *ssa.Range:
+		return rootCallees(x.X, d+1)
+	case *ssa.Phi:
+		var out []string
+		for _, e := range x.Edges {
+			if e != ssa.Value(x) {
+				out = append(out, rootCallees(e, d+1)...)
+			}
+		}
+		return out
+	}
+	return nil
+}
+
+// collectorLeavesOnlyWhenNothingIsOwed (C06): the batch collector is the only goroutine that can hand a deferred
+// object (a retry whose ready time lies in the future sits in `pending`, not in `next`) to an adapter again. It
+// may leave its loop only after aborting the wait group (fatal error) or when the pending batch it just computed
+// is empty — otherwise an object's wait-group slot is never released and Wait() blocks forever.
+func collectorLeavesOnlyWhenNothingIsOwed(c *Ctx, rule string) {
+	p := c.P
+	fn := p.Fn("tq", "(*TransferQueue).collectBatches")
+	if fn == nil {
+		c.Missing(rule, "(*tq.TransferQueue).collectBatches", "not found")
+		return
+	}
+	pendingEmpty := PassEdges(fn, func(cond ssa.Value) (bool, bool) {
+		op, x, y, ok := BinCmp(cond)
+		if !ok {
+			return false, false
+		}
+		k, isK := ConstInt(y)
+		lc, isCall := x.(*ssa.Call)
+		if !isK || k != 0 || !isCall {
+			return false, false
+		}
+		if bi, isB := lc.Call.Value.(*ssa.Builtin); !isB || bi.Name() != "len" {
+			return false, false
+		}
+		cc, idx, isRes := CallResult(lc.Call.Args[0])
+		if !isRes || idx != 1 || CalleeName(cc.Common()) != "(tq.batch).Concat" {
+			return false, false
+		}
+		switch op {
+		case token.EQL, token.LEQ:
+			return true, true
+		case token.NEQ, token.GTR:
+			return false, true
+		}
+		return false, false
+	})
+	good, where := true, ""
+	nRet := 0
+	for _, ex := range RunCount(CountQuery{Fn: fn, Cut: EdgeSet(pendingEmpty), NoRet: noReturnCommands, Event: func(in ssa.Instruction) CSet {
+		if sc := AsCall(in); sc != nil && strings.HasSuffix(CalleeName(sc), ".Abort") {
+			return C1
+		}
+		return 0
+	}}) {
+		if ex.Kind != "return" {
+			continue
+		}
+		nRet++
+		if ex.Set&C0 != 0 {
+			good, where = false, ex.Desc(p)
+		}
+	}
+	c.Check(good && nonVacuous(pendingEmpty), rule, "collectBatches:leaves-only-with-empty-pending", p.Pos(fn.Pos()), "the collector returns only after Abort or when the pending batch is empty",
+		"the batch collector can leave its loop while deferred objects are still pending ("+where+"): a retry scheduled for later is never handed to an adapter, its wait-group slot is never released, and Wait() does not return")
+}
